@@ -68,7 +68,10 @@ def scripted_programs(bpc):
          ["removetree", "/"], ["listdir", "/"]],
         # ... and with sub-directories, followed by new entries
         [["makedir", "/x"], ["create", "/x/in x.txt"], ["open", "a", "/TOP.BIN", "w"], ["write", "a", "54" * (2 * bpc)], ["hclose", "a"], ["makedir", "/x/y"],
-         ["removetree", "/"], ["listdir", "/"], ["create", "/after the flood.txt"], ["listdir", "/"]],
+         ["removetree", "/"], ["listdir", "/"], ["create", "/after the flood.txt"], ["listdir", "/"]],        # long-name sets that lie ACROSS the cluster boundaries of a directory of several clusters when the volume is closed (4 slots each behind
+        # '.' and '..': slots 14..17, 30..33, ...), read again by the second session (C06-m7: the reader's long-name accumulator was not carried
+        # from one cluster of a directory to the next)
+        [["makedir", "/q"]] + [["create", f"/q/quarterly report number {i:02d} (final).txt"] for i in range(36)] + [["listdir", "/q"]],
     ]
 
 
@@ -84,6 +87,15 @@ def second_session(ctx, case, r, oracles, model, use_model, remount_every):
         w, _ = history.remount_walk(img2, 0, enc, True)
     except Exception:  # noqa  (an image that does not mount is reported by the oracles of the first session)
         return
+    # what the next session finds is what the previous one reported before it closed (C06-m7: long names lying across a cluster boundary of a
+    # directory were lost when the directory was read again)
+    fl = r.get("final_live")
+    if fl is not None:
+        dd = history.diff_trees(fl[0], w, "the session that wrote it", "the next session")
+        if dd:
+            ctx.violation(f"{case.label}: the next session sees a different tree than the one reported before closing: {dd[0]}", "second-session-differs",
+                          dict(case.replay(), diffs=dd[:8]))
+            return
     dirs = ["/"] + sorted(p for p in w if w[p][0] == "d")
     ops = []
     for d in dirs[:8]:
